@@ -374,8 +374,12 @@ let run_eng_line (line : string) (spec : string) (ad : string) (flags : string) 
               | SQuery q -> answer_str (ask ptab !s q)
               | SWlog -> if !s.e_wlog = [] then "-" else String.concat "+" (List.map event_str !s.e_wlog)
               | SReload ->
-                let md = reload_view !s in
-                enc_rules (m_get_all md (explode "p") @ m_get_all md (explode "g")))
+                let ((s', md), r) = reload_view !s in
+                s := s';
+                (match r with
+                 | LROk -> enc_rules (m_get_all md (explode "p") @ m_get_all md (explode "g"))
+                 | LRErr e -> errc_str e
+                 | LRPanic -> "P"))
           (String.split_on_char '|' steps) in
     "new=1 r=" ^ String.concat "|" outs
 
